@@ -1,16 +1,15 @@
 (** C17 - "validate always terminates with a verdict": literal models of the
     code fragments the property's anchors name.  Definitions only.
 
-    1. validate_version_nums            src/ocfl/validate/serde.rs:1312-1378 (after commit 719e6a5) and
-       VersionNum::next, src/ocfl/types.rs:297-314 (after commit 476b184)
+    1. validate_version_nums            src/ocfl/validate/serde.rs:1312-1382 (after commits 719e6a5, f842f41)
     2. InventoryVisitor::visit_map      src/ocfl/validate/serde.rs:151-514 (field loop, final guards,
        Inventory::new(..).unwrap(); blank id after commit b116ae5) and Inventory::new, src/ocfl/inventory.rs:95-131
     3. the cross-inventory checks       src/ocfl/validate/mod.rs:607-641, 1534-1707
-       (get_version(..).unwrap(), content_paths(..).unwrap(), PrettyPrintSet types.rs:1344-1361)
-    4. validate_non_conflicting         src/ocfl/validate/serde.rs:1464-1479 (cost)
+       (get_version(..).unwrap(), content_paths(..).unwrap(), PrettyPrintSet types.rs:1350-1362)
+    4. validate_non_conflicting         src/ocfl/validate/serde.rs:1464-1478 (cost)
     5. ContentPathsIter::next           src/ocfl/validate/mod.rs:2103-2124
     6. IncrementalValidatorImpl::next   src/ocfl/validate/mod.rs:1923-2018
-    7. Display for VersionNum with a dynamic width, src/ocfl/types.rs:396-400 *)
+    7. Display for VersionNum           src/ocfl/types.rs:396-406 (after commit d5a9e2d) *)
 From Rocfl Require Export Base.Bytes Model.VersionNum.
 From Rocfl Require Import Generated.Consts.
 Open Scope N_scope.
@@ -21,18 +20,8 @@ Definition unwrap {A} (r : res A) : res A := match r with Err => Panic | x => x 
 (* ------------------------------------------------------------------ *)
 (** * 1. validate_version_nums *)
 
-(** VersionNum::next, src/ocfl/types.rs:297-314 as it is NOW (the shared Model/VersionNum.v
-    [vnext] describes the code before commit 476b184):
-      let max = match self.width { 0 => u32::MAX,
-                                   width => 10u32.checked_pow(width - 1).map_or(u32::MAX, |pow| pow - 1) };
-      if self.number >= max { return Err(..) }
-      Ok(Self { number: self.number + 1, width: self.width })
-    [checked_pow] never overflows (10^e fits a u32 exactly for e <= 9), [pow - 1] has pow >= 1 and
-    [number + 1] is reached with number < max <= u32::MAX only: the same in debug and release. *)
-Definition vnext_cur (v : vnum) : res vnum :=
-  let max := if vn_width v =? 0 then U32MAX
-             else if vn_width v - 1 <=? 9 then 10 ^ (vn_width v - 1) - 1 else U32MAX in
-  if max <=? vn_number v then Err else Ok (mkV (vn_number v + 1) (vn_width v)).
+(** VersionNum::next is [vnext] of Model/VersionNum.v (types.rs:297-315 after commit 476b184):
+    [Err] when the number has reached the maximum of its width (u32::MAX for width 0). *)
 
 (** serde.rs:1312-1313 [const MAX_MISSING_VERSIONS_LISTED: u32 = 100], read from the source on every run *)
 Definition MAX_LISTED : N := K_MAX_MISSING_VERSIONS_LISTED.
@@ -42,21 +31,21 @@ Definition MAX_LISTED : N := K_MAX_MISSING_VERSIONS_LISTED.
 Record vcost := mkC { c_errors : N; c_iters : N }.
 Definition c0 : vcost := mkC 0 0.
 
-(** In this section every Rust-level [Err] is unwrapped (=> [Panic]); the constructor [Err]
-    is therefore free and stands for "fuel exhausted". *)
+(** The constructor [Err] stands for "fuel exhausted" in the results of this section
+    (a Rust-level [Err] is either unwrapped => [Panic], or handled by [break]). *)
 
-(** serde.rs:1346-1352, the inner loop (small gaps only)
+(** serde.rs:1346-1352, the inner loop (entered for small gaps only)
       while next_version < *version {
           result.error(E010, ..);                       <- errors + 1
           next_version = next_version.next().unwrap();
       }
-    [Ord for VersionNum] compares numbers only (types.rs:414-418). *)
-Fixpoint gap_loop (fuel : nat) (next : vnum) (target : N) (c : vcost) : res (vnum * vcost) :=
+    [Ord for VersionNum] compares numbers only (types.rs:434-438). *)
+Fixpoint gap_loop (dbg : bool) (fuel : nat) (next : vnum) (target : N) (c : vcost) : res (vnum * vcost) :=
   if vn_number next <? target then
     match fuel with
     | O => Err
-    | S f => match unwrap (vnext_cur next) with
-             | Ok n' => gap_loop f n' target (mkC (c_errors c + 1) (c_iters c + 1))
+    | S f => match unwrap (vnext dbg next) with
+             | Ok n' => gap_loop dbg f n' target (mkC (c_errors c + 1) (c_iters c + 1))
              | _ => Panic
              end
     end
@@ -64,26 +53,26 @@ Fixpoint gap_loop (fuel : nat) (next : vnum) (target : N) (c : vcost) : res (vnu
 
 (** serde.rs:1330-1354, the [if next_version < *version] statement.
     [version.number - next_version.number] and [version.number - 1] cannot underflow under the
-    guard; the two numbers of the range message are printed with next_version's width (0, see
-    [vn_v1]), so the dynamic format width of section 7 is not involved. *)
-Definition gap_stmt (fuel : nat) (next v : vnum) (c : vcost) : res (vnum * vcost) :=
+    guard; the two numbers of the range message are printed with next_version's width. *)
+Definition gap_stmt (dbg : bool) (fuel : nat) (next v : vnum) (c : vcost) : res (vnum * vcost) :=
   if vn_number next <? vn_number v then
     if MAX_LISTED <? vn_number v - vn_number next
     then Ok (mkV (vn_number v) (vn_width next), mkC (c_errors c + 1) (c_iters c))   (* one E010 for the range *)
-    else gap_loop fuel next (vn_number v) c
+    else gap_loop dbg fuel next (vn_number v) c
   else Ok (next, c).
 
-(** serde.rs:1320-1361, the [for version in version_nums] loop; [vs] is the iteration order
+(** serde.rs:1320-1365, the [for version in version_nums] loop; [vs] is the iteration order
     of the BTreeSet *)
-Fixpoint vnums_go (fuel : nat) (vs : list vnum) (next : vnum) (c : vcost) : res vcost :=
+Fixpoint vnums_go (dbg : bool) (fuel : nat) (vs : list vnum) (next : vnum) (c : vcost) : res vcost :=
   match vs with
   | [] => Ok c
   | v :: rest =>
-      match gap_stmt fuel next v (mkC (c_errors c) (c_iters c + 1)) with
+      match gap_stmt dbg fuel next v (mkC (c_errors c) (c_iters c + 1)) with
       | Ok (next', c') =>
-          match unwrap (vnext_cur next') with                  (* serde.rs:1360 next_version = next_version.next().unwrap() *)
-          | Ok next'' => vnums_go fuel rest next'' c'
-          | _ => Panic
+          match vnext dbg next' with             (* serde.rs:1360-1364 (commit f842f41) *)
+          | Ok next'' => vnums_go dbg fuel rest next'' c'         (* Ok(next) => next *)
+          | Err => Ok c'                                          (* Err(_) => break *)
+          | Panic => Panic
           end
       | Err => Err
       | Panic => Panic
@@ -92,11 +81,11 @@ Fixpoint vnums_go (fuel : nat) (vs : list vnum) (next : vnum) (c : vcost) : res 
 
 Definition vn_v1 : vnum := mkV 1 0.                            (* VersionNum::v1(), types.rs:269-274 *)
 (** the inner loop is entered with at most MAX_LISTED numbers to go: that much fuel is enough
-    (theorem C17_vnums_exact: the result is never [Err]) *)
-Definition validate_version_nums (vs : list vnum) : res vcost :=
-  vnums_go (N.to_nat MAX_LISTED) vs vn_v1 c0.
+    (theorem C17_vnums_exact: the result is [Ok], never "fuel exhausted", never [Panic]) *)
+Definition validate_version_nums (dbg : bool) (vs : list vnum) : res vcost :=
+  vnums_go dbg (N.to_nat MAX_LISTED) vs vn_v1 c0.
 
-(** serde.rs:1321-1328, 1363-1377: (E013 inconsistent padding, W001 zero padded) *)
+(** serde.rs:1321-1328, 1367-1381: (E013 inconsistent padding, W001 zero padded) *)
 Definition vnums_padding (vs : list vnum) : bool * bool :=
   match vs with
   | [] => (false, false)
@@ -105,25 +94,18 @@ Definition vnums_padding (vs : list vnum) : bool * bool :=
 
 (** closed form of the loop over the numbers (what the correspondence evaluates): an element
     at distance g from the expected next number adds g errors and g inner iterations when
-    g <= MAX_LISTED, one error and no inner iteration otherwise *)
+    g <= MAX_LISTED, one error and no inner iteration otherwise; the loop ends at u32::MAX *)
 Definition gap_errors (g : N) : N := if MAX_LISTED <? g then 1 else g.
 Definition gap_iters (g : N) : N := if MAX_LISTED <? g then 0 else g.
 Fixpoint vnums_fast (vs : list N) (next : N) (c : vcost) : vcost :=
   match vs with
   | [] => c
-  | v :: rest => vnums_fast rest (N.max next v + 1)
-                   (mkC (c_errors c + gap_errors (v - next)) (c_iters c + 1 + gap_iters (v - next)))
+  | v :: rest =>
+      let c' := mkC (c_errors c + gap_errors (v - next)) (c_iters c + 1 + gap_iters (v - next)) in
+      if U32MAX <=? N.max next v then c' else vnums_fast rest (N.max next v + 1) c'
   end.
 Definition vnums_cost (vs : list N) : N := c_errors (vnums_fast vs 1 c0).
 Definition vnums_iters (vs : list N) : N := c_iters (vnums_fast vs 1 c0).
-
-(** the final [next_version.next().unwrap()] of an iteration (serde.rs:1360) fails when the
-    number reached is u32::MAX: next_version has width 0, for which [next] refuses u32::MAX *)
-Fixpoint vnums_overflow (vs : list N) (next : N) : bool :=
-  match vs with
-  | [] => false
-  | v :: rest => (U32MAX <=? N.max next v) || vnums_overflow rest (N.max next v + 1)
-  end.
 
 (** the gaps the loop meets, one per element *)
 Fixpoint vnums_gaps (vs : list N) (next : N) : list N :=
@@ -186,7 +168,7 @@ Inductive sval :=
 (** a JSON value at a place where the visitor asks for an object.  When serde_json refuses a
     value with "invalid type ... expected ROCFL" the visitor records its own error and goes on;
     a scalar has been consumed by then, but of an array only nothing: the next [next_key] then
-    meets '[' and fails with a syntax error, which ends the parse (E033 added by parse(), serde.rs:52-60) *)
+    meets '[' and fails with a syntax error, which ends the parse (E033 added by parse(), serde.rs:62-73) *)
 Inductive cval :=
 | CObj               (** an object whose content records no error *)
 | CScalar            (** number, string, bool, null *)
@@ -228,12 +210,12 @@ Definition addn (c : ecode) (n : N) (st : pst) : pst :=
 
 Definition is_nil' {A} (l : list A) : bool := match l with [] => true | _ => false end.
 Definition contains_slash (s : bytes) : bool := existsb (fun c => Ascii.eqb c "/"%char) s.
-(** serde.rs:295-303 and validate_content_dir (validate/mod.rs:53-61) use the same three tests *)
+(** serde.rs:305-313 and validate_content_dir (validate/mod.rs:53-61) use the same three tests *)
 Definition cdir_kind (s : bytes) : option ecode :=
   if bytes_eqb s (b ".") || bytes_eqb s (b "..") then Some E018
   else if contains_slash s then Some E017 else None.
 
-(** VersionsVisitor::visit_map, serde.rs:563-627: nums, map keys, errors, aborted by a syntax error *)
+(** VersionsVisitor::visit_map, serde.rs:563-622: nums, map keys, errors, aborted by a syntax error *)
 Fixpoint versions_fold (l : list (bytes * body)) (nums keys : list vnum) (e : errs)
   : list vnum * list vnum * errs * bool :=
   match l with
@@ -249,37 +231,22 @@ Fixpoint versions_fold (l : list (bytes * body)) (nums keys : list vnum) (e : er
       end
   end.
 
-(** outcome of reading the value of "versions": [VVAbort] = serde error after the recorded
-    errors, [VVPanic] = validate_version_nums (serde.rs:615) panicked *)
-Inductive vvres :=
-| VVOk (nums keys : list vnum) (e : errs)
-| VVAbort (e : errs)
-| VVPanic.
-
-Definition versions_value (l : list (bytes * body)) : vvres :=
+Definition versions_value (l : list (bytes * body)) : list vnum * list vnum * errs * bool :=
   let '(nums, keys, e, aborted) := versions_fold l [] [] [] in
-  if aborted then VVAbort e
+  if aborted then (nums, keys, e, true)
   else
-    match validate_version_nums nums with                                (* serde.rs:615 *)
-    | Ok c =>
-        let e1 := e ++ [(E010, c_errors c)] in
-        let e2 := if fst (vnums_padding nums) then e1 ++ [(E013, 1)] else e1 in
-        VVOk nums keys e2
-    | _ => VVPanic
-    end.
+    (* validate_version_nums, serde.rs:615: by C17_vnums_exact it records [vnums_cost] E010 errors *)
+    let e1 := e ++ [(E010, vnums_cost (map vn_number nums))] in
+    let e2 := if fst (vnums_padding nums) then e1 ++ [(E013, 1)] else e1 in
+    (nums, keys, e2, false).
 
 Definition set_errs (st : pst) (e : errs) : pst :=
   mkP (p_id st) (p_type st) (p_alg st) (p_head st) (p_cdir st) (p_manifest st) (p_versions st) (p_fixity st)
       (f_digest st) (f_head st) (f_manifest st) (f_versions st) e.
 
 (** one iteration of the field loop, serde.rs:171-399.
-    [SNext st'] : continue;  [SAbort e] : [return Err(e)] - the visitor aborts with these recorded
-    errors;  [SPanicked] : a panic unwinds out of the visitor *)
-Inductive sres := SNext (st : pst) | SAbort (e : errs) | SPanicked.
-Definition inl (st : pst) : sres := SNext st.
-Definition inr (e : errs) : sres := SAbort e.
-
-Definition step (st : pst) (it : item) : sres :=
+    [inl st'] : continue;  [inr e] : [return Err(e)] - the visitor aborts with these recorded errors *)
+Definition step (st : pst) (it : item) : pst + errs :=
   match it with
   | IId v =>
       if p_id st then inl (add E033 st)                                 (* duplicate_field *)
@@ -361,14 +328,11 @@ Definition step (st : pst) (it : item) : sres :=
       if p_versions st then inl (add E033 st)
       else match v with
            | VObj l =>
-               match versions_value l with
-               | VVAbort e => inr (p_errs st ++ e)
-               | VVPanic => SPanicked
-               | VVOk nums keys e =>
-                   inl (mkP (p_id st) (p_type st) (p_alg st) (p_head st) (p_cdir st) (p_manifest st)
-                            (Some (nums, keys)) (p_fixity st) (f_digest st) (f_head st) (f_manifest st)
-                            (f_versions st) (p_errs st ++ e))
-               end
+               let '(nums, keys, e, aborted) := versions_value l in
+               if aborted then inr (p_errs st ++ e)
+               else inl (mkP (p_id st) (p_type st) (p_alg st) (p_head st) (p_cdir st) (p_manifest st)
+                             (Some (nums, keys)) (p_fixity st) (f_digest st) (f_head st) (f_manifest st)
+                             (f_versions st) (p_errs st ++ e))
            | VScalar => inl (mkP (p_id st) (p_type st) (p_alg st) (p_head st) (p_cdir st) (p_manifest st)
                                  None (p_fixity st) (f_digest st) (f_head st) (f_manifest st)
                                  true (p_errs st ++ [(E044, 1)]))
@@ -386,10 +350,10 @@ Definition step (st : pst) (it : item) : sres :=
   | IUnknown => inl (add E102 st)                                       (* unknown_field *)
   end.
 
-Fixpoint run (st : pst) (items : list item) : sres :=
+Fixpoint run (st : pst) (items : list item) : pst + errs :=
   match items with
-  | [] => SNext st
-  | it :: rest => match step st it with SNext st' => run st' rest | x => x end
+  | [] => inl st
+  | it :: rest => match step st it with inl st' => run st' rest | inr e => inr e end
   end.
 
 Definition some {A} (o : option A) : bool := match o with Some _ => true | None => false end.
@@ -450,9 +414,8 @@ Definition finish (st : pst) : pres * errs :=
 
 Definition visit (items : list item) : pres * errs :=
   match run p0 items with
-  | SNext st => finish st
-  | SAbort e => (PAbort, e)
-  | SPanicked => (PPanicked, [])
+  | inl st => finish st
+  | inr e => (PAbort, e)
   end.
 
 (* ------------------------------------------------------------------ *)
@@ -490,7 +453,7 @@ Definition set_eqb (x y : list (N * N)) : bool := subset x y && subset y x.
 Inductive psite := SGetVersion | SContentPaths | SPrettyPrint.
 Inductive xres := XOk (errors : N) | XPanic (s : psite) | XFuel.
 
-(** Display for PrettyPrintSet, types.rs:1344-1357: [let max = self.0.len() - 1] on usize:
+(** Display for PrettyPrintSet, types.rs:1350-1361: [let max = self.0.len() - 1] on usize:
     overflow check in a debug build; a release build wraps and the loop body never runs *)
 Definition pps_panics (dbg : bool) (len : N) : bool := dbg && (len =? 0).
 
@@ -583,7 +546,7 @@ Definition cross_check (dbg : bool) (root : ainv) (dirs : list (N * ainv)) : xre
 (* ------------------------------------------------------------------ *)
 (** * 4. validate_non_conflicting (cost) *)
 
-(** serde.rs:1468-1478, for one path:
+(** serde.rs:1469-1477, for one path:
       while let Some(index) = part.rfind('/') { part = &part[0..index]; if paths.contains(part) {..break} }
     every [contains] hashes the prefix: cost = sum of the prefix lengths (no conflict: no break).
     [slash_prefix_cost pos s] : s is the rest of the path, pos the index of its first character *)
@@ -615,7 +578,7 @@ Fixpoint cpi_walk (eq : vnum -> vnum -> bool) (dbg : bool) (fuel : nat) (cur : v
                 end
        end.
 
-(** PartialEq for VersionNum, types.rs:402-406: numbers only *)
+(** PartialEq for VersionNum, types.rs:414-418: numbers only *)
 Definition vnum_eq_rust (a c : vnum) : bool := vn_number a =? vn_number c.
 
 (* ------------------------------------------------------------------ *)
@@ -669,13 +632,17 @@ Definition lsize (l : list tree) : nat := fold_right (fun t n => (tsize t + n)%n
 Definition ssize (s : list (list tree)) : nat := fold_right (fun l n => (S (lsize l) + n)%nat) O s.
 
 (* ------------------------------------------------------------------ *)
-(** * 7. Display of a VersionNum with a huge width *)
+(** * 7. Display of a VersionNum *)
 
-(** types.rs:398 [write!(f, "v{:0width$}", self.number, width = self.width as usize)]: with the
-    pinned toolchain (rustc 1.95) a run-time width above u16::MAX panics
-    ("Formatting argument out of range") *)
-Definition FMT_WIDTH_MAX : N := 65535.
-Definition vdisplay_panics (v : vnum) : bool := FMT_WIDTH_MAX <? vn_width v.
+(** types.rs:396-406 (after commit d5a9e2d): no run-time format width any more
+      let digits = self.number.to_string();
+      f.write_str("v")?;
+      for _ in digits.len()..self.width as usize { f.write_str("0")?; }
+      f.write_str(&digits)
+    The text written is [vdisplay] of Model/VersionNum.v ('v', width - digits zeros, the digits);
+    nothing in it can panic and its cost is the length of the text (C17_display_linear). *)
+Definition vdisplay_writes (v : vnum) : N :=            (** calls of write_str *)
+  2 + (vn_width v - blen (dec_digits (vn_number v))).
 
 (* ------------------------------------------------------------------ *)
 (** * 8. URI::try_from of uriparse 0.6.4 (third-party), called for "id" (serde.rs:190) and user "address" (serde.rs:1214) *)
